@@ -171,7 +171,12 @@ func clientMirror(run *vk.Run, seqs [][][]byte) {
 		return
 	}
 	restarts := 0
+	mirrorViolations := 0
 	for i, frames := range seqs {
+		if mirrorViolations >= 3 {
+			run.Logf("client mirror: stopping after %d violations (each further one costs its full canary time-out)", mirrorViolations)
+			break
+		}
 		run.Eval(1)
 		run.Count("client_mirror_sequences", 1)
 		os.WriteFile(filepath.Join(vk.Root, ".work", fmt.Sprintf("c10-%d", os.Getpid()), "last-client-input.txt"), []byte(showFrames(frames)), 0o644)
@@ -210,6 +215,7 @@ func clientMirror(run *vk.Run, seqs [][][]byte) {
 					clientCanary(raw, 0)
 					continue
 				} else {
+					mirrorViolations++
 					run.Violation(vk.Violation{Sub: "wedged", Fields: map[string]any{"side": "client"},
 						What:    "Go client no longer answers the canary after the server sent " + showFrames(frames) + ": " + err.Error(),
 						Witness: map[string]any{"frames": frameStrings(frames), "side": "client"}})
@@ -233,6 +239,7 @@ func clientMirror(run *vk.Run, seqs [][][]byte) {
 			case strings.Contains(logt, "slice bounds out of range"):
 				kind = "slice-bounds"
 			}
+			mirrorViolations++
 			run.Violation(vk.Violation{Sub: "process-died", Fields: map[string]any{"kind": kind, "side": "client"},
 				What:    "the Go client process exited after the server sent " + showFrames(frames) + " :: " + firstLines(logt, 3),
 				Witness: map[string]any{"frames": frameStrings(frames), "side": "client", "child_log": firstLines(logt, 30)}})
